@@ -366,7 +366,7 @@ func (cat *Catalog) header() map[string]any {
 		if elems == nil {
 			elems = []int{}
 		}
-		cm[c.ID] = map[string]any{"size": len(c.Data), "bytes": elems, "man": c.Man, "natural": c.Natural,
+		cm[c.ID] = map[string]any{"size": len(c.Data), "bytes": elems, "man": c.Man, "natural": c.Natural, "json": json.Valid(c.Data),
 			"as": map[string]any{"image": c.As["image"], "index": c.As["index"]}}
 	}
 	sort.Slice(cids, func(i, j int) bool { return cat.byID[cids[i]].Digest < cat.byID[cids[j]].Digest })
